@@ -20,6 +20,7 @@
 import Atomman.Prelude
 import Atomman.Generated.VoigtTables
 import Atomman.Generated.CrystalCij
+import Atomman.Generated.AxesCheck
 
 namespace Atomman.C11
 open Atomman.Gen
@@ -208,18 +209,37 @@ def setSijkl (inv : M6 K → Option (M6 K)) (S : T4 K) : Except String (M6 K) :=
 
 /-! ### axes_check and transform -/
 
-/-- `axes_check(axes)`: `norms i` stands for `np.linalg.norm(axes[i])` (parameter). -/
-def axesCheck (axes : M33 K) (norms : Fin 3 → K) : Except String (M33 K) :=
+/-- reference reading of `axes_check(axes, tol)` (hand-written; the generated tests are proved equal to it:
+    `gen_axesCheck_eq_model`): rows divided by their lengths (`norms i` stands for `np.linalg.norm(axes[i])`:
+    parameter), Gram matrix against the identity, cross product of the first two unit rows against the third, both
+    with `allclose` semantics at `atol = tol`. -/
+def axesCheckRef (tol : K) (axes : M33 K) (norms : Fin 3 → K) : Except String (M33 K) :=
   let u : M33 K := fun i j => axes i j / norms i
   let one : M33 K := fun i j => if i = j then ((1 : Nat) : K) else ((0 : Nat) : K)
-  if ¬ idx3.all (fun p => isclose npRtol axesCheckTol (sum3 fun k => u p.1 k * u p.2 k) (one p.1 p.2))
+  if ¬ idx3.all (fun p => isclose npRtol tol (sum3 fun k => u p.1 k * u p.2 k) (one p.1 p.2))
   then .error "value" else
   let cr : Fin 3 → K := fun j =>
     if j.val = 0 then u 0 1 * u 1 2 - u 0 2 * u 1 1
     else if j.val = 1 then u 0 2 * u 1 0 - u 0 0 * u 1 2
     else u 0 0 * u 1 1 - u 0 1 * u 1 0
-  if ¬ (List.finRange 3).all (fun j => isclose npRtol axesCheckTol (cr j) (u 2 j))
+  if ¬ (List.finRange 3).all (fun j => isclose npRtol tol (cr j) (u 2 j))
   then .error "value" else .ok u
+
+/-- exception class of the source -> error class on the wire. -/
+def errClass (e : String) : String :=
+  if e = "ValueError" then "value" else if e = "AssertionError" then "assert" else if e = "TypeError" then "type"
+  else "other"
+
+/-- `axes_check(axes, tol)` as the source says it now: the GENERATED tests (`axesCheckTests`: entry pairs, exception
+    class, whether `atol` is the `tol` argument) tried in program order, then the GENERATED entries of the result. -/
+def axesCheckT (tol : K) (axes : M33 K) (norms : Fin 3 → K) : Except String (M33 K) :=
+  match (axesCheckTests axes norms).find? (fun t =>
+      !(t.2.2.all fun ab => isclose npRtol (if t.2.1 then tol else npAtol) ab.1 ab.2)) with
+  | some t => .error (errClass t.1)
+  | none => .ok (m33 (axesCheckU axes norms))
+
+/-- `axes_check(axes)` at its default `tol` (what `transform` calls). -/
+def axesCheck (axes : M33 K) (norms : Fin 3 → K) : Except String (M33 K) := axesCheckT axesCheckTol axes norms
 
 /-- the two `einsum`s of `transform` (generated): `C'_ijkl = Σ Q_ghij C_ghmn Q_mnkl`, `Q = T⊗T`. -/
 def rot (T : M33 K) (C : T4 K) : T4 K := transC (transQ T) C
